@@ -12,7 +12,8 @@ RULE = ("scenario trees {one group of 3, hard-link set, two groups} x op {remove
         "emulated, dedupe on a file system without reflink, move by rename, move by copy to another device}; the "
         "mutating-call history of the real binary is recorded twice (must be identical), then for EVERY event k the run "
         "is repeated with the process SIGKILLed just before k, and with call k failing with each errno of {EIO, EXDEV} "
-        "(quick) / {EIO, ENOSPC, EXDEV, EPERM, EOPNOTSUPP} (thorough); thorough adds every pair k1<k2 failing with EIO. "
+        "(quick) / {EIO, ENOSPC, EXDEV, EPERM, EOPNOTSUPP} (thorough); pairs of failures with EIO: k and the next one or two "
+        "calls (quick), every pair k1<k2 (thorough). "
         "Invariant: no content digest disappears; retained files untouched; every processed path holds its original "
         "bytes at the path, or (crash / failed roll-back only) at the temporary sibling, or is completely replaced; never "
         "a partially written file at the path; after a failing call a warning names the unprocessed file and the "
@@ -181,6 +182,11 @@ def evaluate(case):
             if tier == "thorough":
                 for k1 in range(K):
                     for k2 in range(k1 + 1, K + 3):
+                        plan.append((k1, "EIO", k2))
+            else:
+                # quick: the operation fails and the call(s) right after it - its roll-back - fail too
+                for k1 in range(K):
+                    for k2 in (k1 + 1, k1 + 2):
                         plan.append((k1, "EIO", k2))
             if case.get("only"):
                 plan = [tuple(case["only"])]
